@@ -49,10 +49,15 @@ def run(ctx):
     loc = loc_of(m, e.node)
     kw = dict(e.kwargs)
     rng = e.args[0]
-    leaves = list(T.phi_leaves(rng))
-    ok = T.atom("rng") in leaves and all(l == T.atom("rng") or (l[0] == "f" and "default_rng" in l[1]) for l in leaves)
-    if ok and rng[0] == "phi":
-        ok = rng[1] == ("is", T.atom("rng"), T.NONE) and T.select(rng, rng[1], False) == T.atom("rng")
+    if rng[0] == "or":
+        # `rng or default_rng()`: the supplied generator first, a fresh one only as fallback
+        leaves = list(rng[1])
+        ok = leaves[0] == T.atom("rng") and all(l[0] == "f" and "default_rng" in l[1] for l in leaves[1:])
+    else:
+        leaves = list(T.phi_leaves(rng))
+        ok = T.atom("rng") in leaves and all(l == T.atom("rng") or (l[0] == "f" and "default_rng" in l[1]) for l in leaves)
+        if ok and rng[0] == "phi":
+            ok = rng[1] == ("is", T.atom("rng"), T.NONE) and T.select(rng, rng[1], False) == T.atom("rng")
     ctx.decide(ok, "C09.rng", construct, loc, "indices are drawn from the rng argument (fresh generator only when it is None)",
                f"indices are drawn from {T.show(rng)[:160]}, not from the generator the caller supplied")
     pop = e.args[1] if len(e.args) > 1 else kw.get("a")
@@ -123,6 +128,7 @@ MUTANTS = [
     M("early return ignores size", _S, "if beta == self.beta and n_samples is None:", "if beta == self.beta:", "C09.same"),
 ]
 NEUTRALS = [
+    M("generator fallback written with or", _S, "if rng is None:\n            rng = np.random.default_rng()\n        if n_samples is None:", "rng = rng or np.random.default_rng()\n        if n_samples is None:"),
     M("index via temporary weights", _S, "w = to_numpy(self.xp.exp(log_w - logsumexp(log_w)))", "lse = logsumexp(log_w)\n        w = to_numpy(self.xp.exp(log_w - lse))"),
     M("constructor keywords reordered", _S, "log_q=self.log_q[idx],\n            beta=beta,\n            dtype=self.dtype,", "beta=beta,\n            log_q=self.log_q[idx],\n            dtype=self.dtype,"),
     M("population size via len(self)", _S, "idx = rng.choice(len(self.x), size=n_samples,", "idx = rng.choice(len(self), size=n_samples,"),
